@@ -75,7 +75,10 @@ pub fn expected_fragments(segs: &[Segment], rx_buffer: usize) -> Vec<(u16, Vec<u
 /// fragment (FIR and FIN); without FIR it is as if it had never been sent, with FIR (but without FIN) it ends the
 /// fragment in progress like every FIR does and starts nothing; "same source" means the same link address AND the
 /// same socket address. Returns (source, broadcast address, bytes).
-pub fn expected_fragments_ex(segs: &[Segment], rx_buffer: usize) -> Vec<(u16, Option<u16>, Vec<u8>)> {
+pub fn expected_fragments_ex(
+    segs: &[Segment],
+    rx_buffer: usize,
+) -> Vec<(u16, Option<u16>, Vec<u8>)> {
     let segs: Vec<Segment> = segs
         .iter()
         .filter(|s| s.bcast.is_none() || s.fir)
@@ -92,7 +95,11 @@ pub fn expected_fragments_ex(segs: &[Segment], rx_buffer: usize) -> Vec<(u16, Op
         loop {
             if k > i {
                 let (p, c) = (&segs[k - 1], &segs[k]);
-                if c.fir || c.src != segs[i].src || c.peer != segs[i].peer || c.seq != (p.seq + 1) & 0x3F {
+                if c.fir
+                    || c.src != segs[i].src
+                    || c.peer != segs[i].peer
+                    || c.seq != (p.seq + 1) & 0x3F
+                {
                     break;
                 }
             }
